@@ -372,20 +372,10 @@ def read_coercion(tree):
                          '`_str_to_bool` shape: %s' % _src(inner)[:200])
 
 
-DISCOVERY_SHAPE = """if fp is None:
-    from os import path
-    for fp in %s:
-        fp = path.expanduser(fp)
-        if path.exists(fp):
-            try:
-                fp = open(fp)
-            except IOError:
-                return inifile
-            break
-    else:
-        return inifile"""
-READER_SHAPE = ['inifile = Options(default_options)', None, 'import configparser', 'config = configparser.RawConfigParser()',
-                'config.read_file(fp)', 'fp.close()', None, 'return inifile']
+READER_SHAPE = [('inifile = Options(default_options)',), None,
+                ('config = configparser.RawConfigParser()', 'config = RawConfigParser()'),
+                ('config.read_file(fp)',), ('fp.close()',), None, ('return inifile',)]
+OS_PATH = ('path', 'os.path')          # `from os import path` / `import os`
 
 
 def _candidate_paths(strings, node=None):
@@ -400,32 +390,81 @@ def _candidate_paths(strings, node=None):
     return out
 
 
+def _is_import(st):
+    return isinstance(st, (ast.Import, ast.ImportFrom))
+
+
+def _os_path_call(node, fn, arg):
+    """node is `path.<fn>(<arg>)` or `os.path.<fn>(<arg>)`"""
+    return (isinstance(node, ast.Call) and not node.keywords and len(node.args) == 1
+            and isinstance(node.args[0], ast.Name) and node.args[0].id == arg
+            and isinstance(node.func, ast.Attribute) and node.func.attr == fn and _src(node.func.value) in OS_PATH)
+
+
 def read_discovery(tree):
     """The candidate paths, in priority order, of which read_configuration_file reads the FIRST existing one
-    (and nothing else).  Any other shape of the function (e.g. one that reads several files) is not understood."""
+    (and nothing else):
+
+        if fp is None:
+            for a in [<'~/...' literals>]:
+                b = path.expanduser(a)              # or os.path.expanduser; b may be a again
+                if path.exists(b):
+                    try:
+                        fp = open(b)
+                    except IOError:                 # or OSError: no configuration at all
+                        return inifile
+                    break
+            else:
+                return inifile
+        ... config.read_file(fp) ...                # one file is read
+
+    Any other shape of the function (e.g. one that reads several files) is not understood."""
     f = _func(tree, 'read_configuration_file')
     if [a.arg for a in f.args.args] != ['fp', 'default_options'] or f.args.vararg or f.args.kwarg or f.args.kwonlyargs:
         raise TranslateError('read_configuration_file signature changed')
-    body = [st for st in f.body if not _is_docstring(st)]
+    body = [st for st in f.body if not _is_docstring(st) and not _is_import(st)]
     if len(body) != len(READER_SHAPE):
         raise TranslateError('read_configuration_file: %d top-level statements, expected %d' % (len(body), len(READER_SHAPE)))
     for st, want in zip(body, READER_SHAPE):
-        if want is not None and _src(st) != want:
-            _err(st, 'read_configuration_file: statement %r where %r is expected' % (_src(st)[:60], want))
-    disc, loop = body[1], body[6]
+        if want is not None and _src(st) not in want:
+            _err(st, 'read_configuration_file: statement %r where %r is expected' % (_src(st)[:60], want[0]))
+    disc, loop = body[1], body[5]
     if not (isinstance(loop, ast.For) and _src(loop.target) == 'section' and _src(loop.iter) == 'config.sections()'
             and not loop.orelse and len(loop.body) == 1 and isinstance(loop.body[0], ast.For)):
         _err(loop, 'read_configuration_file: the loop over config.sections() is not recognised')
-    if not (isinstance(disc, ast.If) and not disc.orelse and len(disc.body) == 2 and isinstance(disc.body[1], ast.For)
-            and isinstance(disc.body[1].iter, (ast.List, ast.Tuple))):
-        _err(disc, 'read_configuration_file: the search for the configuration file is not the recognised loop')
-    lst = disc.body[1].iter
-    if not all(isinstance(e, ast.Constant) and isinstance(e.value, str) for e in lst.elts):
-        _err(lst, 'read_configuration_file: candidate paths must be string literals')
-    if _src(disc) != DISCOVERY_SHAPE % _src(lst):
-        _err(disc, 'read_configuration_file: the search for the configuration file is not '
-                   '"open the first candidate that exists, read only that one"')
-    return _candidate_paths([e.value for e in lst.elts], lst)
+
+    def bad(node, why):
+        _err(node, 'read_configuration_file: the search for the configuration file is not "open the first candidate that '
+                   'exists, read only that one" (%s)' % why)
+    if not (isinstance(disc, ast.If) and _src(disc.test) == 'fp is None' and not disc.orelse):
+        bad(disc, '`if fp is None:` not found')
+    inner = [st for st in disc.body if not _is_import(st)]
+    if not (len(inner) == 1 and isinstance(inner[0], ast.For)):
+        bad(disc, 'one for loop expected')
+    loop = inner[0]
+    if not (isinstance(loop.target, ast.Name) and isinstance(loop.iter, (ast.List, ast.Tuple))
+            and all(isinstance(e, ast.Constant) and isinstance(e.value, str) for e in loop.iter.elts)):
+        bad(loop, 'the loop is not over a literal list of paths')
+    a = loop.target.id
+    if not (len(loop.orelse) == 1 and _src(loop.orelse[0]) == 'return inifile'):
+        bad(loop, 'no candidate exists: `return inifile` expected in the else branch')
+    if len(loop.body) != 2:
+        bad(loop, 'loop body')
+    expand, test = loop.body
+    if not (isinstance(expand, ast.Assign) and len(expand.targets) == 1 and isinstance(expand.targets[0], ast.Name)
+            and _os_path_call(expand.value, 'expanduser', a)):
+        bad(expand, 'expanduser')
+    b = expand.targets[0].id
+    if not (isinstance(test, ast.If) and not test.orelse and _os_path_call(test.test, 'exists', b) and len(test.body) == 2
+            and isinstance(test.body[1], ast.Break) and isinstance(test.body[0], ast.Try)):
+        bad(test, 'if exists: try ... ; break')
+    tr = test.body[0]
+    if not (len(tr.body) == 1 and _src(tr.body[0]) == 'fp = open(%s)' % b and not tr.orelse and not tr.finalbody
+            and len(tr.handlers) == 1 and tr.handlers[0].name is None and tr.handlers[0].type is not None
+            and _src(tr.handlers[0].type) in ('IOError', 'OSError', '(IOError, OSError)', '(OSError, IOError)')
+            and len(tr.handlers[0].body) == 1 and _src(tr.handlers[0].body[0]) == 'return inifile'):
+        bad(tr, 'try: fp = open(...) except IOError: return inifile')
+    return _candidate_paths([e.value for e in loop.iter.elts], loop.iter)
 
 
 def read_discovery_lenient(tree):
